@@ -898,7 +898,11 @@ class BaseWorkflow(object, metaclass=abc.ABCMeta):
                     else:
                         lft = output_task.lst
                         lst = lft - prev_task.remaining_work_amount
-                    if pre_lft < 0 or pre_lft >= lft:
+                    if (
+                        pre_lft < 0
+                        or pre_lft > lft
+                        or (pre_lft == lft and lst < prev_task.lst)
+                    ):
                         prev_task.lst = lst
                         prev_task.lft = lft
                     prev_task_set.add(prev_task)
